@@ -1781,3 +1781,122 @@ func DirtyGuard(w *load.World, c *core.Collector) {
 	}
 	emitLint(c, "DIRTYGUARD", "flag-guarded-write", seen, per, nil)
 }
+
+// TXLEAK: a storage transaction opened by hand (bbolt's DB.Begin) is ended on every path — by
+// Rollback or Commit, directly or deferred. A read transaction that is left open on an error path
+// keeps the database from ever closing (DB.Close waits for it) and pins the pages it read.
+func TxLeak(w *load.World, c *core.Collector) {
+	per := map[string][]lintHit{}
+	seen := map[string]bool{}
+	n := 0
+	for _, f := range w.Fns {
+		if !load.InMod(f) || f.Synthetic != "" {
+			continue
+		}
+		pkg := load.PkgPath(f)
+		if strings.HasSuffix(pkg, "/diskstore") || pkg == load.Mod+"/utils" {
+			seen[pkg] = true
+		}
+		for _, b := range f.Blocks {
+			for _, in := range b.Instrs {
+				call, ok := in.(*ssa.Call)
+				if !ok || call.Call.StaticCallee() == nil || call.Call.StaticCallee().String() != "(*go.etcd.io/bbolt.DB).Begin" {
+					continue
+				}
+				n++
+				seen[pkg] = true
+				var tx ssa.Value
+				for _, r := range *call.Referrers() {
+					if ex, ok := r.(*ssa.Extract); ok && ex.Index == 0 {
+						tx = ex
+					}
+				}
+				if tx == nil {
+					per[pkg] = append(per[pkg], lintHit{w.At(call), "the transaction returned by Begin is dropped"})
+					continue
+				}
+				ends := func(x ssa.Instruction) bool {
+					ci, ok := x.(ssa.CallInstruction)
+					if !ok || ci.Common().StaticCallee() == nil || len(ci.Common().Args) == 0 {
+						return false
+					}
+					nm := ci.Common().StaticCallee().String()
+					return (nm == "(*go.etcd.io/bbolt.Tx).Rollback" || nm == "(*go.etcd.io/bbolt.Tx).Commit") && ci.Common().Args[0] == tx
+				}
+				// handed to someone else (returned, stored, passed on): their business
+				escapes := false
+				for _, r := range *tx.Referrers() {
+					switch x := r.(type) {
+					case *ssa.Return, *ssa.Store, *ssa.MakeInterface, *ssa.MakeClosure, *ssa.Phi:
+						escapes = true
+					case ssa.CallInstruction:
+						if x.Common().StaticCallee() != nil && len(x.Common().Args) > 0 && x.Common().Args[0] == tx && strings.HasPrefix(x.Common().StaticCallee().String(), "(*go.etcd.io/bbolt.Tx).") {
+							continue
+						}
+						escapes = true
+					}
+				}
+				if escapes {
+					continue
+				}
+				// the edge on which Begin succeeded
+				var start []*ssa.BasicBlock
+				for _, r := range *call.Referrers() {
+					ex, ok := r.(*ssa.Extract)
+					if !ok || ex.Index != 1 {
+						continue
+					}
+					_, nilEdges := ssax.NilTests(f, ex)
+					for _, e := range nilEdges {
+						start = append(start, e.From.Succs[e.Succ])
+					}
+				}
+				if len(start) == 0 {
+					start = append(start, b.Succs...)
+					if len(b.Succs) == 0 {
+						start = []*ssa.BasicBlock{b}
+					}
+				}
+				seenB := map[*ssa.BasicBlock]bool{}
+				var dfs func(x *ssa.BasicBlock, deferred bool) string
+				dfs = func(x *ssa.BasicBlock, deferred bool) string {
+					if seenB[x] {
+						return ""
+					}
+					seenB[x] = true
+					for _, xi := range x.Instrs {
+						if ends(xi) {
+							if _, isDefer := xi.(*ssa.Defer); isDefer {
+								deferred = true
+								continue
+							}
+							return ""
+						}
+						if r, isRet := xi.(*ssa.Return); isRet {
+							if deferred {
+								return ""
+							}
+							return w.At(r)
+						}
+					}
+					for _, sc := range x.Succs {
+						if where := dfs(sc, deferred); where != "" {
+							return where
+						}
+					}
+					return ""
+				}
+				for _, sb := range start {
+					if where := dfs(sb, false); where != "" {
+						per[pkg] = append(per[pkg], lintHit{w.At(call), "the transaction begun here is still open when the function returns at " + where + ": the database cannot be closed while it is (Close waits for open transactions), the shard that owns it stays locked"})
+						break
+					}
+				}
+			}
+		}
+	}
+	c.Count("hand_opened_transactions", n)
+	emitLint(c, "TXLEAK", "transaction-left-open", seen, per, func(p string) []string {
+		return []string{"C12", "C08"}
+	})
+}
